@@ -48,6 +48,9 @@ CHECKS = {
  "C05": ("complete enumeration: all 8160+480 embedded table entries, all 32x256 single-byte scalars through four code paths, all position pairs over a byte alphabet, scalar alphabet; both build configurations (assembly and purego lookups); against a reference table built by affine additions",
          "Complete enumeration of the finite structure behind fixed-base multiplication: every precomputed entry (hook) equals (j+1)*256^i*G resp. (j+1)*16*256^i*G; every window value in every byte position (zero nibbles/bytes included) through ScalarBaseMult (4-bit constant-time path), DoubleScalarMultBasepointVartime(s,0,G) and scalarBaseMultVartime (8-bit path) and private-key derivation; all 496 position pairs x 36 byte pairs; the scalar alphabet. The whole check runs twice, with the SSE2 and with the pure-Go lookups.",
          "Trusted: /verif/ref affine arithmetic (table self-checked against double-and-add). s*G for all s < n follows compositionally (independent byte positions + C03 mixed-addition coverage); stated in evidence.", "DESIGN.md §6 C05"),
+ "C04": ("enumeration of a GLV-steered scalar alphabet (lattice corners, rounding-bit and limb-carry boundaries, single-nibble halves, boundary scalars) x points x representatives x 5 code paths x receiver aliasing against double-and-add; split invariants through hooks",
+         "Bounded exhaustive exploration of variable-base multiplication: scalars are constructed from the lattice basis so that a split half sits at its extreme magnitude, bit 383 of s*g flips, or the rounded quotient carries across a 64-bit limb, plus every single non-zero nibble position of either half; each is multiplied with identity / generator / endomorphism-image / small-x / x>=n points in two representatives through ScalarMult, MultiScalarMult(1), DoubleScalarMultBasepointVartime(0,s,P), MultiScalarMultVartime(1) and scalarMultVartimeGLV, with the receiver distinct and aliasing P; for every scalar k1+k2*lambda = s, both normalised halves < 2^128, mulGFlooredDiv = exact rounding, all four sign classes populated.",
+         "Trusted: /verif/ref double-and-add, lattice facts checked at start (a_i+b_i*lambda=0, det=n, g_i=round(2^384 b/n)). The universal bound |k_i|<2^128 is a theorem; its extremal witnesses are checked.", "DESIGN.md §6 C04"),
 }
 
 PENDING_REASON = "check under construction in this round; not yet claimed (see DESIGN.md §6 for the planned bounded-exhaustive check)"
